@@ -14,7 +14,8 @@ import Exetera.Model.Basic
     says that no subscript was negative either.  (Slices keep Python's clamping and negative-bound semantics: a slice
     never raises.)
   * errors are values: `bindE` sequences, `raise IndexError` is `.error (.oob …)`, `raise ValueError` is
-    `.error (.valueError …)`.
+    `.error (.valueError …)`, a failed `assert` is `.error (.other "AssertionError")`.
+  * a CONSTANT negative subscript `a[-c]` is the element `len(a) - c` (`idxNegE`), checked like any other subscript.
 -/
 namespace Exetera.PyRt
 
@@ -51,6 +52,14 @@ theorem idxE_of_lt {α} {xs : List α} {i : Nat} (site : String) (h : i < xs.len
 theorem setIdxE_of_lt {α} {xs : List α} {i : Nat} (v : α) (site : String) (h : i < xs.length) :
     setIdxE xs (i : Int) v site = .ok (xs.set i v) := by
   simp [setIdxE, setE, h]
+
+/-- `xs[-c]` for a constant `c > 0`: the element `len(xs) - c` (IndexError when the array has fewer than `c` entries) -/
+def idxNegE {α} (xs : List α) (c : Nat) (site : String) : Except Err α :=
+  if c ≤ xs.length then getE xs (xs.length - c) site else .error (.oob site)
+
+/-- `xs[-c] = v` for a constant `c > 0` -/
+def setIdxNegE {α} (xs : List α) (c : Nat) (v : α) (site : String) : Except Err (List α) :=
+  if c ≤ xs.length then setE xs (xs.length - c) v site else .error (.oob site)
 
 /-- read of a local that Python may not have bound yet (`UnboundLocalError`); `d` is the definedness flag -/
 def readDefE {α} (d : Bool) (v : α) (_name : String) : Except Err α :=
